@@ -409,11 +409,9 @@ def _clamp_word(facts, tr, rep, word, lo, hi):
             return ev(node[1], ctx, depth + 1)
         if k == "cast":
             inner = _strip(node[2])
-            if node[1] == "FloatToInt" and inner[0] == "binop" and inner[1] == "Mul":
-                for x in (inner[2], inner[3]):
-                    x = _strip(x)
-                    if x[0] == "cast" and x[1] == "IntToFloat":
-                        return (False, ev(x[2], ctx, depth + 1)[1])
+            if node[1] == "FloatToInt":
+                # float arithmetic proves nothing: `x as f64` rounds up above 2^53, and the factor is a configuration
+                # value; the result must be clamped explicitly
                 return (False, False)
             return ev(node[2], ctx, depth + 1)
         return (False, False)
